@@ -91,6 +91,8 @@ MUTANTS = [
      "                if not _is_conductor_link(copy_into, dep_id, ctx):\n", "                if False:\n", ["C18"]),
     ("revert-D29-include-scope", "parsing/task_loader.py",
      "            exec(include_code, scope)\n", "            exec(include_code, {}, scope)\n", ["C15"]),
+    ("revert-D30-gc-ignore-errors", "cli/gc.py",
+     "    shutil.rmtree(path, onerror=retry)\n", "    shutil.rmtree(path, ignore_errors=True)\n", ["C13"]),
     ("loader-no-dup-check", "parsing/task_index.py",
      "                    if dep_identifier in task_deps_set:\n", "                    if dep_identifier in task_deps_set and len(task_deps) > 2:\n", ["C14"]),
 ]
